@@ -436,4 +436,127 @@ Proof.
     rewrite (enumerate_recipes E _ _ _ _ Hen1). apply dir_recipes_nodup. exact Hnd.
 Qed.
 
+(** *** unique names and recipe sources under another listing order *)
+
+Lemma uniq_names_perm : forall t t', stree_perm t t' -> uniq_names t -> uniq_names t'.
+Proof.
+  intros t t' H. induction H as [n d|n|n rn es mid es' HF IH HP] using stree_perm_ind'; intro Hu; try exact Hu.
+  apply uniq_names_dir in Hu as [Hnd Hue]. apply uniq_names_dir. split.
+  - destruct (Forall2_perm_same_shape _ _ HF) as (Hn & _ & _).
+    eapply Permutation_NoDup; [apply Permutation_map; exact HP|]. rewrite <- Hn. exact Hnd.
+  - assert (Hm : Forall uniq_names mid).
+    { clear - IH Hue. induction IH as [|x y l l' Hxy HF IHl]; [constructor|]. inversion Hue; subst.
+      constructor; [apply Hxy; assumption | apply IHl; assumption]. }
+    rewrite Forall_forall in *. intros x Hx. apply Hm. eapply Permutation_in; [apply Permutation_sym; exact HP | exact Hx].
+Qed.
+
+Lemma asubs_flat_map {A} (f : stree -> path -> list A) dp es :
+  asubs f dp es = flat_map (fun e => f e (dp ++ [sname e])) (filter is_sdir es).
+Proof.
+  induction es as [|e r IH]; [reflexivity|]. destruct e as [n d|n|n rn des]; cbn [asubs filter is_sdir flat_map sname]; try exact IH.
+  rewrite IH. reflexivity.
+Qed.
+
+Lemma asources_perm : forall t t', stree_perm t t' ->
+  forall dp P is_root x, In x (asources E t dp P is_root) <-> In x (asources E t' dp P is_root).
+Proof.
+  intros t t' H. induction H as [n d|n|n rn es mid es' HF IH HP] using stree_perm_ind';
+    intros dp P is_root x; try reflexivity.
+  rewrite !asources_eq.
+  pose proof (enumerate_perm dp rn es mid es' HF HP) as Hen.
+  destruct (enumerate E dp rn es) as [l|e]; destruct (enumerate E dp rn es') as [l'|e']; try contradiction; [|reflexivity].
+  destruct Hen as (Ht & _ & _ & Hrec). cbv zeta. rewrite <- Ht.
+  set (mes := dir_mes P dp (l_title l) is_root).
+  rewrite !in_app_iff, !asubs_flat_map, !in_flat_map, !in_map_iff.
+  assert (Hmid : (exists e, In e (filter is_sdir es) /\ In x (asources E e (dp ++ [sname e]) mes false)) <->
+                 (exists e, In e (filter is_sdir mid) /\ In x (asources E e (dp ++ [sname e]) mes false))).
+  { clear - HF IH. induction IH as [|a b l0 l0' Hab IHF IHl]; [reflexivity|].
+    inversion HF as [|? ? ? ? Hsab HF']; subst. specialize (IHl HF').
+    destruct (stree_perm_sname _ _ Hsab) as (Hn & Hd & _).
+    cbn [filter]. rewrite <- Hd. destruct (is_sdir a).
+    - split; intros (e & [Heq|Hin] & Hx).
+      + subst e. exists b. split; [left; reflexivity|]. rewrite <- Hn. apply Hab. exact Hx.
+      + destruct IHl as [IH1 _]. destruct IH1 as (e' & H1 & H2); [exists e; auto|]. exists e'. split; [right; exact H1 | exact H2].
+      + subst e. exists a. split; [left; reflexivity|]. rewrite Hn. apply Hab. exact Hx.
+      + destruct IHl as [_ IH2]. destruct IH2 as (e' & H1 & H2); [exists e; auto|]. exists e'. split; [right; exact H1 | exact H2].
+    - exact IHl. }
+  rewrite Hmid. split.
+  - intros [(e & Hin & Hx)|(nd & Hnd & Hin)].
+    + left. exists e. split; [|exact Hx]. eapply Permutation_in; [apply filter_perm; exact HP | exact Hin].
+    + right. exists nd. split; [exact Hnd|]. eapply Permutation_in; [exact Hrec | exact Hin].
+  - intros [(e & Hin & Hx)|(nd & Hnd & Hin)].
+    + left. exists e. split; [|exact Hx]. eapply Permutation_in; [apply Permutation_sym; apply filter_perm; exact HP | exact Hin].
+    + right. exists nd. split; [exact Hnd|]. eapply Permutation_in; [apply Permutation_sym; exact Hrec | exact Hin].
+Qed.
+
+(** *** the whole hierarchy *)
+
+Lemma pure_scaled_perm t t' root P : stree_perm t t' -> uniq_names t -> forall count j,
+  out_equiv (pure_scaled E t root P j count) (pure_scaled E t' root P j count).
+Proof.
+  intros HP Hu. induction count as [|k IH]; intro j; [reflexivity|]. cbn [pure_scaled].
+  pose proof (pure_dir_perm t t' HP Hu j (Some (N.of_nat (S j))) root P true) as Hd.
+  destruct (pure_dir E j _ t root P true) as [c|e]; destruct (pure_dir E j _ t' root P true) as [c'|e'];
+    simpl in Hd; try contradiction; cbn [bind]; [|exact I]. subst c'.
+  specialize (IH (S j)).
+  destruct (pure_scaled E t root P (S j) k); destruct (pure_scaled E t' root P (S j) k); simpl in IH; try contradiction;
+    cbn [bind]; simpl; auto. subst. reflexivity.
+Qed.
+
+Theorem pure_root_perm t t' root M : stree_perm t t' -> uniq_names t ->
+  out_equiv (pure_root E t root M) (pure_root E t' root M).
+Proof.
+  intros HP Hu. pose proof HP as HP0. destruct HP as [n d|n|n rn es mid es' HF HPm]; try apply out_equiv_refl.
+  unfold pure_root.
+  pose proof (enumerate_perm root rn es mid es' HF HPm) as Hen.
+  destruct (enumerate E root rn es) as [l|e]; destruct (enumerate E root rn es') as [l'|e']; try contradiction; [|exact I].
+  destruct Hen as (Ht & Hdesc & Hsrc & _). cbn [bind]. rewrite <- Ht, <- Hdesc, <- Hsrc.
+  set (P := fun _ : option N => [(l_title l, home_path)]).
+  pose proof (pure_scaled_perm _ _ root P HP0 Hu (N.to_nat M) 0) as Hs.
+  destruct (pure_scaled E _ root P 0 (N.to_nat M)) as [sc|e]; destruct (pure_scaled E (SDir n rn es') root P 0 (N.to_nat M)) as [sc'|e'];
+    simpl in Hs; try contradiction; cbn [bind]; [|exact I]. subst sc'.
+  pose proof (pure_dir_perm _ _ HP0 Hu (N.to_nat M) None root P true) as Hd.
+  destruct (pure_dir E (N.to_nat M) None (SDir n rn es) root P true) as [un|e];
+    destruct (pure_dir E (N.to_nat M) None (SDir n rn es') root P true) as [un'|e']; simpl in Hd; try contradiction;
+    cbn [bind]; simpl; auto. subst. reflexivity.
+Qed.
+
+(** [HomePage.from_root_directory] on the same tree under two listing orders: the same page
+    hierarchy, the same content of [recipe_pages] for every recipe source - or an error in
+    both. *)
+Theorem from_root_directory_perm t t' root M : stree_perm t t' -> uniq_names t ->
+  match from_root_directory E t root M, from_root_directory E t' root M with
+  | Ok (hm, h), Ok (hm', h') =>
+      hm = hm' /\
+      forall P src data mes, In (src, data, mes) (asources E t root P true) ->
+        P = (fun _ : option N => [(h_title hm, home_path)]) -> heap_get src h = heap_get src h'
+  | Err _, Err _ => True
+  | _, _ => False
+  end.
+Proof.
+  intros HP Hu. pose proof (uniq_names_perm _ _ HP Hu) as Hu'.
+  pose proof (from_root_directory_pure E t root M Hu) as H1.
+  pose proof (from_root_directory_pure E t' root M Hu') as H2.
+  pose proof (pure_root_perm t t' root M HP Hu) as Hr.
+  destruct (pure_root E t root M) as [hm|e] eqn:Hp1; destruct (pure_root E t' root M) as [hm'|e'] eqn:Hp2;
+    simpl in Hr; try contradiction.
+  - subst hm'. destruct H1 as (h & Hb & Hf). destruct H2 as (h' & Hb' & Hf'). rewrite Hb, Hb'. split; [reflexivity|].
+    intros P src data mes Hin HPeq.
+    unfold final_heap_ok in Hf, Hf'. unfold pure_root in Hp1, Hp2.
+    destruct HP as [n d|n|n rn es mid es' HF HPm]; try discriminate.
+    pose proof (enumerate_perm root rn es mid es' HF HPm) as Hen.
+    destruct (enumerate E root rn es) as [l|e] eqn:Hen1; [|discriminate].
+    destruct (enumerate E root rn es') as [l'|e'] eqn:Hen2; [|discriminate].
+    destruct Hen as (Ht & _). cbn [bind] in Hp1, Hp2.
+    assert (Htitle : h_title hm = l_title l).
+    { destruct (pure_scaled E _ root _ 0 (N.to_nat M)); [|discriminate]. cbn [bind] in Hp1.
+      destruct (pure_dir E (N.to_nat M) None _ root _ true); [|discriminate]. cbn [bind] in Hp1.
+      inversion Hp1. reflexivity. }
+    subst P. rewrite Htitle in Hin.
+    rewrite (Hf src data mes Hin).
+    rewrite <- Ht in Hf'. symmetry. apply Hf'.
+    apply (asources_perm _ _ (SP_dir n rn es mid es' HF HPm)). exact Hin.
+  - rewrite H1, H2. exact I.
+Qed.
+
 End Order.
